@@ -182,6 +182,17 @@ fn run_registry(a: &Args) -> Report {
                     let ki = r.usize(nkeys);
                     let key = &keys[ki];
                     let e = model.st.entry((kind, ki)).or_insert((0, 0, None));
+                    if r.chance(1, 5) {
+                        // registered (or looked up) without any update: it is a live series all the same, and idles from
+                        // its first observation on
+                        match kind {
+                            0 => reg.get_or_create_counter(key, |_| ()),
+                            1 => reg.get_or_create_gauge(key, |_| ()),
+                            _ => reg.get_or_create_histogram(key, |_| ()),
+                        }
+                        trace.push(format!("t={} register-only kind{} key{}", now, kind, ki));
+                        continue;
+                    }
                     match kind {
                         0 => {
                             let v = r.below(3);
@@ -313,7 +324,12 @@ fn run_exporter(a: &Args) -> Report {
         mock.increment(Duration::from_secs(1000));
         let bits = r.below(8) as u8;
         let timeout_ns: Option<u64> = if r.chance(1, 8) { None } else { Some(*r.pick(&[0u64, 10, 1000, 1_000_000_000, u64::MAX / 2, u64::MAX])) };
-        let mut b = PrometheusBuilder::new().idle_timeout(mask_of(bits), timeout_ns.map(to_timeout));
+        // sometimes an earlier idle_timeout call with another mask precedes the one that counts
+        let mut b = PrometheusBuilder::new();
+        if r.chance(1, 3) {
+            b = b.idle_timeout(mask_of(r.below(8) as u8), Some(Duration::from_nanos(*r.pick(&[10u64, 1000]))));
+        }
+        let mut b = b.idle_timeout(mask_of(bits), timeout_ns.map(to_timeout));
         if r.chance(1, 2) {
             b = b.add_global_label("env", "prod");
         }
